@@ -39,7 +39,8 @@ type seqStep struct {
 	Faults  []string `json:"faults,omitempty"`
 	DFaults []string `json:"dfaults,omitempty"`
 	// N is the target size of a probe: the honest request computed from the OBSERVED stored state.
-	N int `json:"n,omitempty"`
+	N   int `json:"n,omitempty"`
+	Ext int `json:"ext,omitempty"` // probe: the honest checkpoint carries extension lines
 }
 
 type seqRun struct {
@@ -312,7 +313,7 @@ func execPhase(base *world.World, tag string, phase int, steps []seqStep, storeK
 				events = append(events, skipEvent{E: "skip", Run: tag, K: k})
 				continue
 			}
-			rq := world.Req{Auth: "good", B: 0, N: s.N, Pf: world.Pf{K: "empty"}}
+			rq := world.Req{Auth: "good", B: 0, N: s.N, Ext: s.Ext, Pf: world.Pf{K: "empty"}}
 			if !st.None {
 				rq.Old = st.N
 				if st.N != s.N && st.N != 0 {
